@@ -45,6 +45,7 @@ import (
 //   - every service type must be unique
 func NetworkDocumentValidator() did.Validator {
 	return &did.MultiValidator{Validators: []did.Validator{
+		nilEntryValidator{},
 		did.W3CSpecValidator{},
 		verificationMethodValidator{},
 		basicServiceValidator{},
@@ -57,6 +58,26 @@ func ManagedDocumentValidator(serviceResolver resolver.ServiceResolver) did.Vali
 		NetworkDocumentValidator(),
 		managedServiceValidator{serviceResolver},
 	}}
+}
+
+// nilEntryValidator rejects DID documents with a nil verification method or a verification relationship without verification method.
+// That is what a JSON null in those arrays is unmarshalled to; the validators after this one (and the DID library's own) dereference them.
+type nilEntryValidator struct{}
+
+func (n nilEntryValidator) Validate(document did.Document) error {
+	for _, method := range document.VerificationMethod {
+		if method == nil {
+			return errors.New("invalid verificationMethod: null entry")
+		}
+	}
+	for _, relationships := range []did.VerificationRelationships{document.Authentication, document.AssertionMethod, document.KeyAgreement, document.CapabilityInvocation, document.CapabilityDelegation} {
+		for _, relationship := range relationships {
+			if relationship.VerificationMethod == nil {
+				return errors.New("invalid verification relationship: null entry")
+			}
+		}
+	}
+	return nil
 }
 
 // verificationMethodValidator validates the Verification Methods of a Nuts DID Document.
